@@ -11,3 +11,5 @@ mod k_agg;
 mod k_cut;
 #[cfg(kani)]
 mod k_backend;
+#[cfg(kani)]
+mod k_map;
